@@ -50,7 +50,7 @@ def fBF (x : BF) : String := toString x.bits.toNat
       hist <variant> <cfg> <man> <bkg> <up> <lo> <dx> <grid> <d0> <s0> <ops>
 
     variant  4 chars 0/1: bumpAlways exactHit resetNsgrad clearNsgOnEval   (probed on the real code by the harness)
-    cfg      5 chars 0/1: srcFields preFields staticFields cachePd parabola
+    cfg      6 chars 0/1: srcFields preFields staticFields cachePd parabola cacheBkg
     man      d:s:k:g:v1,v2,…;…     signal PDF values of grid point g for the events of source k
     bkg      d:s:v1,v2,…;…         background PDF values
     up, lo   g:g';…                ParameterGrid neighbours          dx  grid spacing
@@ -71,8 +71,8 @@ def pVariant (s : String) : Variant :=
 
 def pCfg (s : String) : Cfg :=
   match bits s with
-  | [a, b, c, d, e] => ⟨a, b, c, d, e⟩
-  | _ => ⟨false, false, false, false, false⟩
+  | [a, b, c, d, e, f] => ⟨a, b, c, d, e, f⟩
+  | _ => ⟨false, false, false, false, false, false⟩
 
 def entries (s : String) : List (List String) :=
   if s == "-" then [] else (s.splitOn ";").map (·.splitOn ":")
@@ -163,7 +163,8 @@ def fieldTrace (f : Nat → Nat → UInt64 → List Float) (reset : Bool) :
       | none => "U") :: fieldTrace f reset r.1 ops
 
 /-  third request kind: the upper layers (Model/CacheTop.lean), operations = the real calls
-      top <variant> <cfg> <man> <bkg> <up> <lo> <dx> <grid> <nev d:N;…> <ak s:x1,x2,…:a1,a2,…;…> <opa> <d0> <s0> <ops>
+      top <variant> <cfg> <man> <bkg> <up> <lo> <dx> <grid> <nev d:N;…> <ak s:x1,x2,…:a1,a2,…;…> <opa> <casc0> <d0> <s0> <ops>
+    casc0   1: the object graph after its first initialize_for_new_trial (`tfresh`); 0: as constructed, before any cascade
     ops     ;-separated  T<d> (tdm.initialize_trial) | L (initialize_for_new_trial cascade) | C<s> (change_shg_mgr)
                          | E<ns>|<xs>|<keys> | G<ns> (calculate_ns_grad2)
     answer  ;-separated  U | V:<llh>:<dllh/dns>:<ratio blocks>:<grad blocks> | XERR | G:<number> | REF              -/
@@ -206,7 +207,7 @@ def answer (line : String) : String :=
       let r := run W v (hitOf v cfg) cfg (fresh (pN d0) (pN s0)) ops
       String.intercalate ";" (List.zipWith (· ++ ·) (r.2.map fRes) ((pureTrace W cfg.parabola (pN d0) (pN s0) ops).map fPure))
     | none => "bad-ops"
-  | ["top", v, c, man, bkg, up, lo, dx, grid, nev, ak, opa, d0, s0, ops] =>
+  | ["top", v, c, man, bkg, up, lo, dx, grid, nev, ak, opa, casc0, d0, s0, ops] =>
     let v := pVariant v
     let cfg := pCfg c
     let nt := nevTab nev
@@ -215,7 +216,10 @@ def answer (line : String) : String :=
       { W := mkWorld man bkg up lo dx grid, nEvents := fun d => (nt.lookup d).getD 0,
         ak := fun s q => (at_.lookup (s, q.x)).getD [], opa := pBF opa }
     match (if ops == "-" then some [] else (ops.splitOn ";").mapM pTOp) with
-    | some ops => String.intercalate ";" ((trun T v (hitOf v cfg) cfg (tfresh (pN d0) (pN s0)) ops).2.map fTRes)
+    | some ops =>
+      let t0 : TSt Nat Nat BF := tfresh (pN d0) (pN s0)
+      let t0 := if pB casc0 then t0 else { t0 with evd := none }
+      String.intercalate ";" ((trun T v (hitOf v cfg) cfg t0 ops).2.map fTRes)
     | none => "bad-ops"
   | ["field", reset, tab, d0, s0, ops] =>
     let t := fTab tab
